@@ -4,6 +4,7 @@ package c09
 import (
 	"encoding/json"
 	"fmt"
+	"os"
 	"sort"
 	"strings"
 	"sync"
@@ -392,6 +393,11 @@ func check(t *testing.T, run *vk.Run) {
 	vsync.MapDesc = mapDesc
 	fams := families(run)
 	var caseNo int64
+	if run.Replay == "" && os.Getenv("VERIF_PLANNER_REUSE") != "" {
+		// probe, not part of the check (DESIGN 8.6): a plan.Planner turned out to be
+		// single-use in this tree and no documented entry point re-uses one
+		plannerReuse(run, fams)
+	}
 
 	if run.Replay != "" {
 		var in struct {
